@@ -1,6 +1,44 @@
-"""C18 — see checks/srv_common.py and DESIGN.md section 6"""
+"""C18 — see checks/srv_common.py and DESIGN.md section 6; plus the accounting oracle on the THREADED server
+(harness/locks_dyn.c, mode `acct`): stop / start / peer close / traffic under the PRNG scheduler, the reported number
+of open connections is never negative, never above the number of live sockets, zero after CS104_Slave_stop"""
+import os, re
+from vlib.core import *
 from checks import srv_common
 
 
+def threaded_accounting(res):
+    bdir = os.path.join(BUILD, "C18")
+    lib = build_lib()
+    exe = build_harness("locks_dyn", ["locks_dyn.c", "simhal.c"], lib, bdir, exclude=set(REAL_HAL))
+    seeds = [seed()] if res.tier == "quick" else [seed() + i for i in range(6)]
+    tot = {}
+    for sd in seeds:
+        trace = os.path.join(bdir, "acct_trace_%d.txt" % sd)
+        rc, out = sh([exe, "acct" if res.tier == "quick" else "acct-thorough", trace], env={"VERIF_SEED": str(sd)}, timeout=3000)
+        if rc != 0:
+            res.violation("crash-threaded-accounting", "sanitizer abort in the threaded stop/start scenarios (seed %d)" % sd,
+                          {"sanitizer": out[-1500:], "how": "VERIF_SEED=%d %s acct" % (sd, exe)})
+            continue
+        for l in out.splitlines():
+            if l.startswith("ACCT_FAIL "):
+                os.makedirs(os.path.join(ROOT, "replays"), exist_ok=True)
+                rp = os.path.join(ROOT, "replays", "C18-threaded-trace-seed%d.txt" % sd)
+                try:
+                    open(rp, "w").write(open(trace).read()[-200000:])
+                except OSError:
+                    rp = None
+                res.violation("threaded-open-connections", "threaded server: " + l[10:600],
+                              {"failing_history": rp, "how": "VERIF_SEED=%d %s acct   (scheduler and operations are derived from the seed)" % (sd, exe), "what": l[10:]})
+            if l.startswith("ACCT "):
+                for k, v in re.findall(r"(\w+)=(\d+)", l):
+                    tot[k] = tot.get(k, 0) + int(v)
+    res.cov["threaded_accounting"] = tot
+    res.assumptions.append("threaded server: stop / start / accounting are checked by the model-free oracle of harness/locks_dyn.c (mode acct) under a PRNG scheduler, not modelled in Lean")
+
+
 def run(res):
+    try:
+        threaded_accounting(res)
+    except BuildError as e:
+        res.violation("tie-or-proof-broken", "threaded accounting harness does not build: " + str(e)[-400:], {"no_longer_checks": ["harness/locks_dyn.c"]}, found_input=False)
     return srv_common.run(res, "C18")
